@@ -1,6 +1,9 @@
 package vsync
 
-import "reflect"
+import (
+	"reflect"
+	"time"
+)
 
 // Channel operations under the scheduler. The instrumenter rewrites `ch <- v` (to ChanSendFn), `<-ch`,
 // `v, ok := <-ch`, `close(ch)` and `for x := range ch` in repository code to these functions.
@@ -26,7 +29,7 @@ var (
 
 //go:norace
 func chanReset() {
-	closedList, waitList = nil, nil
+	closedList, waitList, timerList = nil, nil, nil
 }
 
 //go:norace
@@ -120,6 +123,12 @@ func ChanRecv2[T any](ch <-chan T) (v T, ok bool) {
 	}
 	self := cur
 	id := chanID(ch)
+	if _, tm := isTimer(id); tm {
+		schedule(self)
+		fireTimer(id)
+		v, ok = <-ch
+		return
+	}
 	if cap(ch) > 0 {
 		self.chBuf, self.chKind, self.chID = reflect.ValueOf(ch), chRecv, id
 		schedule(self)
@@ -220,6 +229,9 @@ func (c *SelCase) ready() bool {
 		return false
 	}
 	id := c.ch.Pointer()
+	if _, tm := isTimer(id); tm && !c.send {
+		return true
+	}
 	if c.ch.Cap() > 0 {
 		if c.send {
 			return c.ch.Len() < c.ch.Cap() || isClosed(id)
@@ -269,6 +281,7 @@ func (c *SelCase) perform() {
 		c.ch.Send(c.val)
 		return
 	}
+	fireTimer(id)
 	v, ok := c.ch.Recv()
 	if c.dst.IsValid() {
 		c.dst.Elem().Set(v)
@@ -319,12 +332,17 @@ func Select(hasDefault bool, cases ...SelCase) int {
 		schedule(self)
 		self.sel = nil
 	}
-	var ready []int
+	var ready, timers []int
 	for i := range cases {
 		if cases[i].ready() {
-			ready = append(ready, i)
+			if _, tm := isTimer(cases[i].ch.Pointer()); tm && !cases[i].send {
+				timers = append(timers, i)
+			} else {
+				ready = append(ready, i)
+			}
 		}
 	}
+	ready = append(ready, timers...)
 	if len(ready) == 0 {
 		return -1 // only reachable with a default clause
 	}
@@ -335,4 +353,50 @@ func Select(hasDefault bool, cases ...SelCase) int {
 	i := ready[pick]
 	cases[i].perform()
 	return i
+}
+
+// ---- timers: time may pass arbitrarily between two scheduling points, so a timer channel is
+// ready whenever somebody looks at it. Which clause of a select fires (the timer or another ready
+// clause) is a choice of the exploration; the default answer prefers the non-timer clauses.
+
+var timerList []reflect.Value
+
+//go:norace
+func isTimer(id uintptr) (reflect.Value, bool) {
+	for _, t := range timerList {
+		if t.Pointer() == id {
+			return t, true
+		}
+	}
+	return reflect.Value{}, false
+}
+
+//go:norace
+func fireTimer(id uintptr) {
+	if t, ok := isTimer(id); ok && t.Len() == 0 {
+		t.Send(reflect.ValueOf(time.Now()))
+	}
+}
+
+// After replaces time.After in repository code.
+//
+//go:norace
+func After(d time.Duration) <-chan time.Time {
+	if !Active {
+		return time.After(d)
+	}
+	ch := make(chan time.Time, 1)
+	timerList = append(timerList, reflect.ValueOf(ch))
+	return ch
+}
+
+// Sleep replaces time.Sleep: a scheduling point (the sleeping goroutine may be overtaken).
+//
+//go:norace
+func Sleep(d time.Duration) {
+	if !Active {
+		time.Sleep(d)
+		return
+	}
+	Point()
 }
